@@ -4,6 +4,38 @@ import curve_check
 import world
 
 
+def state_rater_product():
+    """every curve state the statement names x every rater of the
+    catalogue: never preprocessed, preprocessed only, fitted, attempted but
+    unsuccessful (no / too few points in the interval, a failing later
+    pass), fitted then edited, refused settings"""
+    states = {
+        "fresh": [],
+        "preprocessed": [{"op": "apply", "pipe": "P1"}],
+        "fitted": [{"op": "apply", "pipe": "P1"},
+                   {"op": "fit", "kw": {"model_key": "m_para"}}],
+        "nopoints": [{"op": "apply", "pipe": "P1"},
+                     {"op": "fit", "kw": {"model_key": "m_para",
+                                          "range_x": "r_adv1"}}],
+        "relfail": [{"op": "apply", "pipe": "P1"},
+                    {"op": "fit", "kw": {"model_key": "m_para",
+                                         "range_type": "t_rel",
+                                         "range_x": "r_tiny"}}],
+        "edited": [{"op": "apply", "pipe": "P1"},
+                   {"op": "fit", "kw": {"model_key": "m_para"}},
+                   {"op": "set", "key": "weight_cp", "val": "w_half"}],
+        "refused": [{"op": "apply", "pipe": "P1"},
+                    {"op": "fit", "kw": {"model_key": "m_bad"}}],
+        "notip": [{"op": "fit", "kw": {"model_key": "m_para"}}],
+    }
+    out = []
+    for sname, pre in states.items():
+        for rid in world.RATERS:
+            out.append(list(pre) + [{"op": "rate", "rater": rid},
+                                    {"op": "rate", "rater": rid}])
+    return out
+
+
 def run(ctx):
     quick = ctx.tier == "quick"
     sl = {"rate": world.SLICES["rate"], "rate2": world.SLICES["rate2"],
@@ -14,7 +46,8 @@ def run(ctx):
         n_random=60 if quick else 600, rand_len=24,
         rand_weights=dict(rate=6, fit=4, set=2, apply=2, scan=0.05),
         walk_limit=None if not quick else 150,
-        curves=("syn1", "syn2", "rec1", "syn3"))
+        curves=("syn1", "syn2", "rec1", "syn3"),
+        scripted=state_rater_product())
     ctx.assumptions += [
         "expected value = standalone IndentationRater (assembled from the "
         "public pieces: load_training_set, regressor table, constructor) "
